@@ -5,6 +5,7 @@ import Driver.ExprProto
 import Driver.BlockProto
 import Driver.SortProto
 import Driver.TriviaProto
+import Driver.CallProto
 /-
 `modeld`: one request per line on stdin, one answer per line on stdout.
 The harness runs the real code on the same requests and diffs the answers.
@@ -61,6 +62,8 @@ def handle (line : String) : String :=
   | ["block", v, rs, re, body] => Driver.BlockProto.handle v rs re body
   | ["sortreq", v, en, body] => Driver.SortProto.handle v en body
   | ["trivia", eol, body] => Driver.TriviaProto.handle eol body
+  | ["callform", m, o, f] => Driver.CallProto.handle m o f
+  | ["fnspace", m] => Driver.CallProto.handleSpace m
   | ["faithful", i] => Driver.ExprProto.handleFaithful i
   | ["semeq", i, o] => Driver.ExprProto.handleSem i o
   | _ => "bad-op"
